@@ -239,13 +239,16 @@ def prepare_df_for_events(df):
 
 def apply_events(df_events, mid, channels, current_tempo):
     ticks_per_beat = mid.ticks_per_beat
-
+    last_tick = {}
 
     for idx, row in df_events.iterrows():
         vel = int(row['VELOCITY'])
         track_nb = int(row['TRACK'])
         event_type = row['EVENT_TYPE']
-        delta = int(row['DELTA'] * ticks_per_beat)
+        # the event's absolute position in ticks, truncated once (truncating every delta separately lets the error add up)
+        tick = int(row['OFFSET'] * ticks_per_beat)
+        delta = tick - last_tick.get(track_nb, 0)
+        last_tick[track_nb] = tick
         track = mid.tracks[track_nb]
         pitch = int(row['PITCH'])
         if event_type == 'NOTE_ON':
